@@ -115,6 +115,36 @@ CLAIMED["C11"] = dict(engine="interpolate", design="4 C11",
   text="Coq theorems over ResolveStringReferences on a library given as the block list it is built from (first definition per key proved from the Library model; resolved/untouched/metadata via a spec relation; non-entry blocks untouched; default stack = resolve then remove acts block-wise, field holds the referenced string's content; order-matters witness), tied to /repo by differential correspondence on split libraries of generated documents (resolve alone, real default parse_string, swapped order) and a Python oracle on parse_string(text) against the document spec.",
   note="'after default parsing of a grammar-derived document' composes with the splitter model (C02/C09) and is covered here by the oracle; duplicate-wrapped entries are not live and not resolved (checked by correspondence)",
   technique="Coq proof + differential correspondence via extracted model + document-spec oracle")
+
+CLAIMED["C02"] = dict(engine="split", design="4 C02",
+   text="Coq theorem 'parse (print d) = ground truth of d' for EVERY document of the dialect grammar (AST Model/Grammar.v with printer, "
+        "constructive ground truth and boolean well-formedness incl. side condition G): one block per source block, in order, no failed "
+        "block, lower-cased type, exact key, fields in order with exact names, verbatim values and '=' lines, strings/preambles/comments/"
+        "free text with their source text, raw text and start line of every block; tied to /repo by three-way correspondence "
+        "(implementation = model = generator's ground truth) on seeded random derivations.",
+   note="documents outside the dialect (boundaries B1-B5 of DESIGN.md section 3) are not claimed; duplicate field names are excluded "
+        "(they are C09's subject); model hand-written, tied by correspondence; extraction cross-checked by vm_compute",
+   technique="Coq proof (induction over the grammar derivation, fused lexer/machine run) + differential correspondence via extracted model")
+CLAIMED["C18"] = dict(engine="latexwrap", design="4 C18",
+  text="PARTIAL: Coq theorems for the wrapper _PyStringTransformerMiddleware with the converter as an arbitrary function (one-equation characterisation: visited texts incl. order first,last,von,jr, write-back, scope/types, error containment for every failure incl. exceptions without message, library level, conditional round trip), tied to /repo by differential correspondence through the real Latex{En,De}codingMiddleware classes with custom stub converters implementing the same table as the model; the round trip through real pylatexenc is validated by TESTING only (1 000 / 40 000 texts x option sets), scope/type oracle under every constructor option.",
+  note="pylatexenc and the rules configured in latex_encoding.py are not modelled; round-trip clause tested, not proved; open findings K5 (greedy keep_math rule), K6 (URLs with % ~ &); single characters that pristine pylatexenc does not round-trip are excluded at run time and counted in the evidence tags",
+  technique="Coq proof of the wrapper + differential correspondence with stub converters + randomized round-trip testing of the third-party converter")
+CLAIMED["C07"] = dict(engine="heap", design="4 C07",
+  text="Coq theorems over a heap model (objects with identity) of the middleware FRAMEWORK (BlockMiddleware.transform/transform_block, "
+       "LibraryMiddleware, ResolveStringReferences, SortBlocksByTypeAndKey, Library.__init__/add incl. duplicate wrappers, default write "
+       "stack + writer): for EVERY heap, library, per-block body within footprint_ok and stack of ANY length, copy mode leaves every "
+       "pre-existing object unchanged and nothing reachable from the result is a pre-existing object; write_string leaves library and "
+       "format untouched. Tied to /repo by (a) a Python oracle of the property on every shipped middleware class x option set x stacks "
+       "<=3 x write_string formats (own deep-copy reference, id()-based aliasing, fail-closed walker) and (b) differential correspondence of "
+       "the framework model against the real framework with 9 probe bodies + Resolve/Sort/LibraryMiddleware/write_string/copy.deepcopy in "
+       "copy AND in-place mode, comparing the exact sharing pattern.",
+  note="ASSUMED: copy.deepcopy meets dc_contract (explicit hypothesis DC of every theorem, no axiom); the executable copy is proved to meet "
+       "it whenever it completes (C07_deepcopy_exec_partial; fuel sufficiency not proved) and is compared with CPython's deepcopy on every "
+       "run. PROVED for the framework and the probe bodies (C07_probe_footprints); the bodies of the SHIPPED middlewares are NOT modelled "
+       "at heap level in Coq - their footprint is TESTED by the Python oracle only. 'writing twice gives identical text' is tested; the theorem gives "
+       "'library and format graph unchanged'. String-level decisions (bare references, sort permutation) enter the model as harness-computed "
+       "arguments. Exceptions are atoms.",
+  technique="Coq proof (frame reasoning over a heap; induction over blocks/stacks) + property oracle + differential correspondence via extracted model")
 PENDING = {}
 
 def main():
